@@ -81,6 +81,14 @@ func genC13(r *rand.Rand, t *Trace, thorough bool) {
 		if o.fine && it%2 == 0 {
 			p.dim = 1 + r.Intn(2) // few coordinates: near-duplicate points are frequent
 		}
+		if o.fine && it%4 == 2 {
+			// as many training points as cells: every point is its own centroid, near-duplicates included --
+			// two centroids a hair apart, and vectors added right at either of them
+			p.dim = 1
+			p.nlist = 4 + r.Intn(5)
+			o.ntrain = p.nlist
+			o.trainFirst = true
+		}
 		if it%6 == 1 {
 			// a tight, a wide and a medium cluster: the nearest vector of a farther cell can be closer than
 			// everything the nearer cells hold (no bound on the cell's radius may be assumed)
